@@ -221,17 +221,18 @@ def h2_closing(cause: int, p: int, flavour: int, j: int) -> bool:
 
 WS_STEPS = ["recv", ("send", {"type": "websocket.accept"}), ("send", {"type": "websocket.send", "text": "one"}),
             ("send", {"type": "websocket.send", "bytes": b"two"}), "recv_until_disconnect", ("send", {"type": "websocket.send", "text": "late"}), "recv"]
-WS_CAUSES = ["client close frame", "client EOF", "client reset", "write failure", "application closes"]
+WS_CAUSES = ["client close frame", "client EOF", "client reset", "write failure", "application closes", "oversized message and two more messages in the same read",
+             "client close frame and EOF in the same read after two messages"]
 
 
 @harness(
     "C03",
-    dom={"cause": (0, 4), "p": (1, 5), "flavour": (0, 1), "j": (0, 3)},
+    dom={"cause": (0, 6), "p": (1, 5), "flavour": (0, 1), "j": (0, 3)},
     split={"cause": "each"},
-    witnesses=[{"cause": 0, "p": 3, "flavour": 0, "j": 0}, {"cause": 1, "p": 2, "flavour": 1, "j": 0}],
+    witnesses=[{"cause": 0, "p": 3, "flavour": 0, "j": 0}, {"cause": 1, "p": 2, "flavour": 1, "j": 0}, {"cause": 5, "p": 3, "flavour": 0, "j": 0}],
     budget=100,
     per_path=60,
-    bounds="WebSocket over HTTP/1.1 whose application runs 7 steps (connect, accept, 2 sends, wait for disconnect, send after the disconnect, receive again); cause in {client close frame, EOF, reset, failure of write #j, application close} placed before step p (1..5)",
+    bounds="WebSocket over HTTP/1.1 whose application runs 7 steps (connect, accept, 2 sends, wait for disconnect, send after the disconnect, receive again); cause in {client close frame, EOF, reset, failure of write #j, application close, a message over websocket_max_message_size followed by two more messages in one read, two messages + close frame in one read} placed before step p (1..5)",
     encodes=["hypercorn/protocol/ws_stream.py::WSStream.handle", "hypercorn/protocol/ws_stream.py::WSStream.app_send", "hypercorn/protocol/ws_stream.py::WSStream._handle_events",
              "hypercorn/protocol/h11.py::H11Protocol.handle", "hypercorn/protocol/h11.py::H11Protocol._maybe_recycle"],
     stubs=["tier B runtime", "independent wsproto client"],
@@ -242,7 +243,7 @@ def ws_closing(cause: int, p: int, flavour: int, j: int) -> bool:
     post: _
     """
     enter()
-    cause = conc(cause, 0, 4)
+    cause = conc(cause, 0, 6)
     p = conc(p, 1, 5)
     j = conc(j, 0, 3)
     flavour = "asyncio" if conc(flavour, 0, 1) == 0 else "trio"
@@ -250,7 +251,7 @@ def ws_closing(cause: int, p: int, flavour: int, j: int) -> bool:
     if cause == 4:
         steps = steps[:p] + [("send", {"type": "websocket.close", "code": 1000})] + steps[4:]
         steps = [s for s in steps if not (isinstance(s, tuple) and s[1].get("text") == "late")]
-    conn = Conn(None, make_config(), flavour=flavour)
+    conn = Conn(None, make_config(websocket_max_message_size=10), flavour=flavour)
     app = GatedApp(conn.ctx, lambda scope, idx: steps, gated=True)
     conn.proto.app = app
     conn.proto.protocol.app = app
@@ -259,6 +260,12 @@ def ws_closing(cause: int, p: int, flavour: int, j: int) -> bool:
     conn.feed(ws_h1_handshake())
     ws = WSClient()
     open_gates(conn, app, p)
+    if cause in (5, 6) and p < 2:
+        return done(True, skipped="frames before the handshake is accepted: known finding C03-ws-data-before-accept-no-disconnect")
+    if cause == 5:
+        conn.feed(ws.send_text("x" * 11) + ws.send_text("after") + ws.send_bytes(b"more"))
+    elif cause == 6:
+        conn.feed(ws.send_text("one") + ws.send_bytes(b"two") + ws.send_close(1000))
     if cause == 0:
         conn.feed(ws.send_close(1000))
     elif cause == 1:
